@@ -6,23 +6,38 @@ namespace LokiModel.C42
 
 variable {ρ β : Type}
 
+/-- files that have already appended to handler `k` among the running ones -/
+def served (running : List (Nat × Nat)) (k : Nat) : List Nat :=
+  (running.filter (fun p => decide (k < p.2))).map Prod.fst
+
 structure Inv (c : Cfg ρ β) (s : State β) : Prop where
   /-- no file is lost or duplicated -/
-  perm : (s.pending ++ s.running ++ s.done).Perm c.files
-  /-- every handler list is the image of the completion order -/
-  outs : s.outs = c.handlers.map (fun h => s.done.map (fun f => h (c.lint f)))
+  perm : (s.pending ++ s.running.map Prod.fst ++ s.done).Perm c.files
+  /-- handler `k` has been served by the completed files and by the running files whose counter passed `k` -/
+  apps : ∀ k, k < c.nh → (s.apps k).Perm (s.done ++ served s.running k)
+  /-- every handler list is the image of the files appended to it -/
+  outs : ∀ k, s.outs k = (s.apps k).map (fun f => c.handle k (c.lint f))
   count : s.count = s.done.countP (fun f => c.ok (c.lint f))
 
 theorem inv_init (c : Cfg ρ β) : Inv c (init c) := by
-  refine ⟨by simp [init], by simp [init], by simp [init]⟩
+  refine ⟨by simp [init], ?_, by simp [init], by simp [init]⟩
+  intro k _; simp [init, served]
 
-theorem addReport_map (hs : List (ρ → β)) (g : (ρ → β) → List β) (r : ρ) :
-    addReport hs (hs.map g) r = hs.map (fun h => g h ++ [h r]) := by
-  induction hs with
-  | nil => rfl
-  | cons h t ih =>
-    simp only [addReport, List.map_cons, List.zipWith_cons_cons] at ih ⊢
-    rw [ih]
+theorem served_erase (R : List (Nat × Nat)) (a : Nat × Nat) (ha : a ∈ R) (k : Nat) :
+    (served R k).Perm ((if k < a.2 then [a.1] else []) ++ served (R.erase a) k) := by
+  have h := ((List.perm_cons_erase ha).filter (fun p => decide (k < p.2))).map Prod.fst
+  unfold served
+  refine h.trans ?_
+  by_cases hk : k < a.2 <;> simp [hk]
+
+theorem served_append (R : List (Nat × Nat)) (b : Nat × Nat) (k : Nat) :
+    served (R ++ [b]) k = served R k ++ (if k < b.2 then [b.1] else []) := by
+  unfold served
+  by_cases hk : k < b.2 <;> simp [List.filter_append, hk]
+
+theorem fst_erase_perm (R : List (Nat × Nat)) (a : Nat × Nat) (ha : a ∈ R) :
+    (R.map Prod.fst).Perm (a.1 :: (R.erase a).map Prod.fst) := by
+  simpa using (List.perm_cons_erase ha).map Prod.fst
 
 theorem inv_step (c : Cfg ρ β) {s s' : State β} {e : Ev} (hi : Inv c s)
     (h : step c s e = some s') : Inv c s' := by
@@ -35,34 +50,83 @@ theorem inv_step (c : Cfg ρ β) {s s' : State β} {e : Ev} (hi : Inv c s)
       have hp : i ∈ s.pending := List.contains_iff_mem.mp hc.1
       simp only [Option.some.injEq] at h
       subst h
-      refine ⟨?_, hi.outs, hi.count⟩
-      have h1 : (i :: s.pending.erase i).Perm s.pending := (List.perm_cons_erase hp).symm
-      have h2 : (s.pending.erase i ++ (s.running ++ [i])).Perm (i :: s.pending.erase i ++ s.running) := by
-        have : (s.running ++ [i]).Perm (i :: s.running) := List.perm_append_singleton i s.running
-        exact (this.append_left _).trans (by simpa using (List.perm_middle (l₁ := s.pending.erase i) (a := i) (l₂ := s.running)))
-      exact ((h2.trans (h1.append_right _)).append_right _).trans hi.perm
+      refine ⟨?_, ?_, hi.outs, hi.count⟩
+      · have h1 : (i :: s.pending.erase i).Perm s.pending := (List.perm_cons_erase hp).symm
+        have h2 : (s.pending.erase i ++ (s.running ++ [(i, 0)]).map Prod.fst).Perm
+            (i :: s.pending.erase i ++ s.running.map Prod.fst) := by
+          simp only [List.map_append, List.map_cons, List.map_nil]
+          have : (s.running.map Prod.fst ++ [i]).Perm (i :: s.running.map Prod.fst) := List.perm_append_singleton i _
+          exact (this.append_left _).trans (by simp)
+        exact ((h2.trans (h1.append_right _)).append_right _).trans hi.perm
+      · intro k hk
+        show (s.apps k).Perm (s.done ++ served (s.running ++ [(i, 0)]) k)
+        rw [served_append]
+        simpa using hi.apps k hk
+    · cases h
+  | append i pc =>
+    simp only [step] at h
+    split at h
+    · rename_i hc
+      simp only [Bool.and_eq_true, decide_eq_true_eq] at hc
+      have hr : (i, pc) ∈ s.running := List.contains_iff_mem.mp hc.1
+      simp only [Option.some.injEq] at h
+      subst h
+      refine ⟨?_, ?_, ?_, hi.count⟩
+      · have h1 := fst_erase_perm s.running (i, pc) hr
+        have h2 : ((s.running.erase (i, pc) ++ [(i, pc + 1)]).map Prod.fst).Perm (s.running.map Prod.fst) := by
+          simp only [List.map_append, List.map_cons, List.map_nil]
+          exact (List.perm_append_singleton i _).trans h1.symm
+        exact ((h2.append_left _).append_right _).trans hi.perm
+      · intro k hk
+        show (upd s.apps pc (s.apps pc ++ [i]) k).Perm (s.done ++ served (s.running.erase (i, pc) ++ [(i, pc + 1)]) k)
+        have hold := (hi.apps k hk).trans ((served_erase s.running (i, pc) hr k).append_left _)
+        rw [served_append]
+        simp only at hold ⊢
+        by_cases hkp : k = pc
+        · subst hkp
+          simp only [upd, if_true, Nat.lt_irrefl, if_false, List.nil_append, Nat.lt_succ_self] at hold ⊢
+          rw [← List.append_assoc]
+          exact hold.append_right _
+        · simp only [upd, hkp, if_false]
+          by_cases hlt : k < pc
+          · have hlt' : k < pc + 1 := Nat.lt_succ_of_lt hlt
+            simp only [hlt, hlt', if_true] at hold ⊢
+            refine hold.trans (List.Perm.append_left _ ?_)
+            exact (List.perm_append_singleton i _).symm
+          · have hlt' : ¬ k < pc + 1 := by omega
+            simp only [hlt, hlt', if_false, List.nil_append, List.append_nil] at hold ⊢
+            exact hold
+      · intro k
+        show upd s.outs pc (s.outs pc ++ [c.handle pc (c.lint i)]) k = (upd s.apps pc (s.apps pc ++ [i]) k).map _
+        by_cases hkp : k = pc
+        · subst hkp; simp [upd, hi.outs k]
+        · simp [upd, hkp, hi.outs k]
     · cases h
   | finish i =>
     simp only [step] at h
     split at h
     · rename_i hc
-      have hr : i ∈ s.running := List.contains_iff_mem.mp hc
+      have hr : (i, c.nh) ∈ s.running := List.contains_iff_mem.mp hc
       simp only [Option.some.injEq] at h
       subst h
-      refine ⟨?_, ?_, ?_⟩
-      · have h1 : (i :: s.running.erase i).Perm s.running := (List.perm_cons_erase hr).symm
-        have h2 : (s.running.erase i ++ (s.done ++ [i])).Perm (s.running ++ s.done) := by
-          have : (s.done ++ [i]).Perm (i :: s.done) := List.perm_append_singleton i s.done
-          have h3 : (s.running.erase i ++ i :: s.done).Perm (i :: s.running.erase i ++ s.done) := by
-            simpa using (List.perm_middle (l₁ := s.running.erase i) (a := i) (l₂ := s.done))
-          exact (this.append_left _).trans (h3.trans (h1.append_right _))
-        have h4 : (s.pending ++ s.running.erase i ++ (s.done ++ [i])).Perm (s.pending ++ s.running ++ s.done) := by
+      refine ⟨?_, ?_, hi.outs, ?_⟩
+      · have h1 := fst_erase_perm s.running (i, c.nh) hr
+        have h2 : ((s.running.erase (i, c.nh)).map Prod.fst ++ (s.done ++ [i])).Perm (s.running.map Prod.fst ++ s.done) := by
+          have h3 : ((s.running.erase (i, c.nh)).map Prod.fst ++ (s.done ++ [i])).Perm
+              (i :: (s.running.erase (i, c.nh)).map Prod.fst ++ s.done) := by
+            rw [← List.append_assoc]
+            exact (List.perm_append_singleton i _).trans (by simp)
+          exact h3.trans (h1.symm.append_right _)
+        have h4 : (s.pending ++ (s.running.erase (i, c.nh)).map Prod.fst ++ (s.done ++ [i])).Perm
+            (s.pending ++ s.running.map Prod.fst ++ s.done) := by
           simp only [List.append_assoc]
           exact h2.append_left _
         exact h4.trans hi.perm
-      · show addReport c.handlers s.outs (c.lint i) = _
-        rw [hi.outs, addReport_map]
-        simp
+      · intro k hk
+        show (s.apps k).Perm (s.done ++ [i] ++ served (s.running.erase (i, c.nh)) k)
+        have hold := (hi.apps k hk).trans ((served_erase s.running (i, c.nh) hr k).append_left _)
+        simp only [hk, if_true] at hold
+        simpa using hold
       · show s.count + _ = _
         rw [hi.count, List.countP_append]
         simp [List.countP_cons]
